@@ -112,6 +112,7 @@ def showObs (o : List Obs) : String :=
 
 def showOut : Outcome → String
   | .ok => "ok" | .typeError => "TypeError" | .optionsError => "OptionsError" | .keyError => "KeyError"
+  | .attributeError => "AttributeError"
 
 def showRes (r : Res) : String :=
   showOut r.out ++ " " ++ showObs r.obs ++ " " ++ showStore r.st.opts ++ " " ++
@@ -140,8 +141,21 @@ def stepLine (st : St) (line : String) : St × String :=
   | ["upd", kw] => reply st ((parseKw kw).map (updateN st))
   | ["updk", kw] => reply st ((parseKw kw).map (updateKnownN st))
   | ["updd", kw] => reply st ((parseKw kw).map (updateDeferN st))
+  | ["merge", kw] => reply st ((parseKw kw).map (mergeN st))
   | ["set", d, specs] =>
       if d = "0" ∨ d = "1" then reply st ((parseSpecs specs).map fun s => setSpecsN st s (d == "1")) else (st, "bad-op")
+  | ["relpath", cwd, rel, path] =>
+      -- the harness fixes HOME=/h/me/ and relies on the password-database entry root -> /root
+      match (hexOr cwd).bind decodeCps, (hexOr rel).bind decodeCps, (hexOr path).bind decodeCps with
+      | some cwd, some rel, some path =>
+        let home : PyStr := "/h/me/".toList.map Char.toNat
+        let pw : PyStr → Option PyStr := fun n =>
+          if n = "root".toList.map Char.toNat then some ("/root".toList.map Char.toNat) else none
+        match relativePath (some home) pw cwd rel path with
+        | .ok p => (st, "ok " ++ showBytes (utf8 p.str))
+        | .error .value => (st, "ValueError")
+        | .error .runtime => (st, "RuntimeError")
+      | _, _, _ => (st, "bad-op")
   | ["pd"] => reply st (some (processDeferredN st))
   | ["rst"] => reply st (some (resetN st))
   | ["save"] =>
